@@ -19,7 +19,7 @@ from . import common
 from .common import Check, run_tlc, SPECS
 
 ALL_LEAVES = ["U8", "S8", "U16", "S16", "U32", "S32", "U64", "S64", "F32", "F64", "UUID", "Vec3", "Null",
-              "BA8", "BAS8", "BA16", "BA32", "BF2", "BG", "BT", "BTs", "BTn", "STR8", "STR16n", "SF3", "CS", "CSn",
+              "BA8", "BAS8", "BA16", "BA32", "BF2", "BG", "BT", "BTs", "BTn", "STR8", "STR16n", "SF3", "SF8", "CS", "CSn",
               "BIT8", "BIT16n"]
 ALL_CONS = ["CollP", "CollP16", "CollF", "CollG", "OptP", "IfP", "TBP", "TBPe", "TBF", "TBG", "TBGe", "TBT", "TBTe",
             "LenSw", "LenSwD", "EnumSw", "FlagSw", "TupA", "TupB", "Tup2", "TmplA", "TmplFlag", "TmplSkip",
@@ -827,9 +827,27 @@ class Gen:
                 return {"s": [97] * max(0, n)}
             return {"s": self._text(100, avoid, True)}
         if k == "strfixed":
+            n = t["n"]
+            wide = [c.encode("utf8") for c in ("é", "ß", "日", "本", "𝔲")]
             if self.violate and r.random() < 0.6:
-                return {"s": [98] * (t["n"] + r.randrange(1, 3))}
-            return {"s": self._text(t["n"], avoid, True)}
+                if r.random() < 0.5 and not avoid:
+                    # fits in characters, not in bytes: the width is a width in bytes
+                    c = r.choice(wide)
+                    k2 = n // len(c) + 1
+                    return {"s": list(c * k2)} if k2 <= max(n, 1) or True else {"s": [98] * (n + 1)}
+                return {"s": [98] * (n + r.randrange(1, 3))}
+            if not avoid and r.random() < 0.3:
+                # multi-byte characters filling the field exactly or leaving one byte of padding, last position included
+                out = b""
+                target = n - r.choice([0, 0, 1])
+                while True:
+                    c = r.choice(wide + [b"a"])
+                    if len(out) + len(c) > target:
+                        break
+                    out += c
+                out = b"a" * (target - len(out)) + out if r.random() < 0.5 else out + b"a" * (target - len(out))
+                return {"s": list(out)}
+            return {"s": self._text(n, avoid, True)}
         if k == "cstr":
             return {"s": self._text(40, set(avoid) | set(t["terms"]), 0 not in t["terms"] and False)}
         if k == "bitfield":
